@@ -9,21 +9,28 @@ package main
 //   long: rows holding hundreds to thousands of values in the columns below one repeated
 //         field (longer than the value batches and page buffers of the writer, the reader
 //         and the WriteRowGroup re-encode path), next to ordinary short rows.
+//   bigdict: one dictionary-encoded column whose dictionary holds 2^(w-1)+1 .. 2^w distinct
+//         values, w sweeping 9..18, each at least once and in a random order, so that the
+//         RLE_DICTIONARY data pages hold bit-packed runs of indexes at every bit width up to 18
+//         (the level widths stop at 8; the shared generator's dictionaries hold a few hundred
+//         values at most).
 //
-// Both produce a gen.Built (schema, value trees, rows shredded by gen.Shred, options, write
+// All produce a gen.Built (schema, value trees, rows shredded by gen.Shred, options, write
 // history) so that the rest of the check is the same as for the shared generator.
 
 import (
+	"encoding/binary"
 	"fmt"
 	"math/rand"
 
 	"github.com/parquet-go/parquet-go"
+	"github.com/parquet-go/parquet-go/deprecated"
 
 	"verif/harness/gen"
 )
 
 type shape struct {
-	Kind string `json:"kind"` // "deep" | "long"
+	Kind string `json:"kind"` // "deep" | "long" | "bigdict" | "geo" (geo.go)
 	// deep: number of optional+repeated nodes on the spine (= maximum definition level of the
 	// deepest leaf), how many of them are repeated (= its maximum repetition level), and the
 	// number of required nodes interspersed
@@ -32,6 +39,9 @@ type shape struct {
 	Pad int `json:"pad,omitempty"`
 	// long: longest list of the long field
 	MaxLen int `json:"max_len,omitempty"`
+	// bigdict: number of distinct values of the dictionary column (the first Dict rows hold each
+	// of them once, in a random order; later rows repeat some of them)
+	Dict int `json:"dict,omitempty"`
 }
 
 var shapeKinds = []string{"bool", "int32", "int64", "int96", "float", "double", "bytes", "string", "flba", "uuid", "uint32", "uint64", "date", "ts"}
@@ -242,6 +252,75 @@ func longRow(rng *rand.Rand, root *gen.Node, nullBias int, sh *shape, forceLong 
 	return row
 }
 
+// ---- bigdict ----
+
+var bigdictKinds = []string{"int32", "int64", "int96", "float", "double", "bytes", "string", "flba", "uuid", "uint32", "uint64", "date", "ts"}
+
+// Dictionaries of more than 4096 values hold fixed-width values: the PLAIN byte array decoder of the
+// model (Enc/Plain.v dec_plain_byte_array) measures the remaining bytes at every value, quadratic
+// in the length of the dictionary page (8 s for 8000 strings, minutes for 2^16).  Dictionaries of
+// more than 8192 values hold values of 3 or 4 bytes (the extracted decoder spends about 5 s per
+// megabyte of file; the index width does not depend on the type of the values).
+var bigdictNarrowKinds = []string{"int32", "uint32", "date", "float", "flba"}
+
+func bigdictSchema(rng *rand.Rand, sh *shape) *gen.Node {
+	d := &gen.Node{Name: "d", Rep: []int{gen.Req, gen.Req, gen.Opt}[rng.Intn(3)], Leaf: bigdictKinds[rng.Intn(len(bigdictKinds))], Encoding: "dict"}
+	for sh.Dict > 4096 && (d.Leaf == "bytes" || d.Leaf == "string") {
+		d.Leaf = bigdictKinds[rng.Intn(len(bigdictKinds))]
+	}
+	if sh.Dict > 8192 {
+		d.Leaf = bigdictNarrowKinds[rng.Intn(len(bigdictNarrowKinds))]
+	}
+	if d.Leaf == "flba" {
+		d.Size = []int{3, 4, 8, 12}[rng.Intn(4)]
+		if sh.Dict > 8192 {
+			d.Size = 3 + rng.Intn(2)
+		}
+	}
+	return &gen.Node{Name: "root", Fields: []*gen.Node{d}}
+}
+
+// bigdictValue: the i-th of up to 2^24 pairwise distinct values of the leaf (mul is odd).
+func bigdictValue(leaf *gen.Node, i int, mul uint64) parquet.Value {
+	x := uint64(i) * mul
+	switch leaf.Leaf {
+	case "int32", "uint32", "date":
+		return parquet.Int32Value(int32(uint32(x)))
+	case "int64", "uint64", "ts":
+		return parquet.Int64Value(int64(x * 0x9E3779B97F4A7C15))
+	case "int96":
+		return parquet.Int96Value(deprecated.Int96{uint32(x), uint32(i >> 3), uint32(i % 3)})
+	case "float":
+		return parquet.FloatValue(float32(i-(1<<16)) / 4)
+	case "double":
+		return parquet.DoubleValue(float64(i-(1<<16)) / 8)
+	case "string":
+		// four letters: i in base 26 (i < 26^4)
+		return parquet.ByteArrayValue([]byte{byte('a' + i%26), byte('a' + i/26%26), byte('a' + i/676%26), byte('a' + i/17576%26)})
+	case "bytes":
+		// the first 3 bytes identify i (i < 2^24); 3..6 bytes
+		var b [8]byte
+		binary.LittleEndian.PutUint64(b[:], x<<24|uint64(i)&0xFFFFFF)
+		return parquet.ByteArrayValue(append([]byte(nil), b[:3+i%4]...))
+	case "flba", "uuid":
+		size := leaf.Size
+		if leaf.Leaf == "uuid" {
+			size = 16
+		}
+		b := make([]byte, size+8)
+		binary.LittleEndian.PutUint64(b[size:], x)
+		binary.LittleEndian.PutUint32(b, uint32(i)) // the low 3 bytes identify i (i < 2^24)
+		for k := 4; k < size; k++ {
+			b[k] = b[size+k%8]
+		}
+		if size == 3 {
+			b[3] = 0
+		}
+		return parquet.FixedLenByteArrayValue(b[:size])
+	}
+	panic("bigdict leaf " + leaf.Leaf)
+}
+
 // ---- building a case ----
 
 func build(cs c02Case) *gen.Built {
@@ -258,16 +337,53 @@ func build(cs c02Case) *gen.Built {
 		b.Root = deepSchema(rng, sh)
 	case "long":
 		b.Root = longSchema(rng, cfg)
+	case "bigdict":
+		b.Root = bigdictSchema(rng, sh)
+	case "geo":
+		b.Root = geoSchema(rng, cfg)
 	default:
 		panic("shape " + sh.Kind)
 	}
-	b.Schema = b.Root.ParquetSchema()
+	var regions []geoRegion
+	if sh.Kind == "geo" {
+		b.Schema = geoParquetSchema(b.Root)
+		for range b.Root.Fields {
+			regions = append(regions, newGeoRegion(rng))
+		}
+	} else {
+		b.Schema = b.Root.ParquetSchema()
+	}
 	b.Opts = gen.GenOptions(rng, cfg)
 	// rows come from their own stream: a prefix of the rows is reproduced when NRows shrinks
 	rrng := rand.New(rand.NewSource(g.Seed ^ 0x5DEECE66D))
+	var perm []int
+	var mul uint64
+	if sh.Kind == "bigdict" {
+		b.Opts = bigdictOptions(b.Opts, rng)
+		perm = rrng.Perm(sh.Dict)
+		mul = rrng.Uint64() | 1
+	}
 	for i := 0; i < g.NRows; i++ {
 		var v *gen.Val
 		switch sh.Kind {
+		case "bigdict":
+			leaf := b.Root.Fields[0]
+			k := 0
+			if i < len(perm) {
+				k = perm[i]
+			} else if sh.Dict > 0 {
+				k = rrng.Intn(sh.Dict)
+			}
+			x := bigdictValue(leaf, k, mul)
+			v = &gen.Val{Leaf: &x}
+			if leaf.Rep == gen.Opt {
+				if i >= len(perm) && rrng.Intn(10) < g.NullBias {
+					v = &gen.Val{IsOpt: true, Null: true}
+				} else {
+					v = &gen.Val{IsOpt: true, Some: v}
+				}
+			}
+			v = &gen.Val{Group: []*gen.Val{v}}
 		case "deep":
 			levels := float64(sh.Def)
 			c := float64(1 + g.NullBias%4)
@@ -275,12 +391,39 @@ func build(cs c02Case) *gen.Built {
 			v = d.value(b.Root)
 		case "long":
 			v = longRow(rrng, b.Root, g.NullBias, sh, i == 0)
+		case "geo":
+			v = geoRow(rrng, b.Root, regions, g.NullBias, i)
 		}
 		b.Vals = append(b.Vals, v)
 		b.Rows = append(b.Rows, gen.Shred(b.Root, v))
 	}
 	b.History = gen.GenHistory(rng, g.NRows)
+	if sh.Kind == "bigdict" {
+		// one row group (a dictionary is a row group's): batches of up to 5000 rows, no Flush
+		b.History = nil
+		for left := g.NRows; left > 0; {
+			k := 1 + rng.Intn(5000)
+			if k > left {
+				k = left
+			}
+			b.History = append(b.History, k)
+			left -= k
+		}
+	}
 	return b
+}
+
+// bigdictOptions: one row group, no dictionary size limit, pages of at least 16 kB (a chunk of 2^18
+// values in pages of 64 bytes is thousands of pages: the Gallina thrift reader is quadratic in the
+// offset index), no bloom filter (ten bits per value)
+func bigdictOptions(o gen.Options, rng *rand.Rand) gen.Options {
+	o.MaxRows = 0
+	o.DictMaxBytes = 0
+	o.Bloom = false
+	if o.PageBuffer < 16384 {
+		o.PageBuffer = []int{16384, 65536, 1 << 18}[rng.Intn(3)]
+	}
+	return o
 }
 
 // copyOptions: the options of the second writer of a WriteRowGroup case.
@@ -302,6 +445,9 @@ func copyOptions(b *gen.Built, cs c02Case) gen.Options {
 		// page buffer, dictionary limit, default encoding, statistics, bloom filters
 		rng := rand.New(rand.NewSource(cs.Gen.Seed*7 + 3))
 		opts = gen.GenOptions(rng, gen.Config{Codecs: cs.Gen.Codecs})
+	}
+	if cs.Shape != nil && cs.Shape.Kind == "bigdict" {
+		opts = bigdictOptions(opts, rand.New(rand.NewSource(cs.Gen.Seed*11+5)))
 	}
 	opts.MaxRows = 0
 	return opts
